@@ -158,6 +158,82 @@ def run_added(rp, groups, order, start=None):
     return snaps
 
 
+class TimedCoopRLock(object):
+    """the task manager's `_tasks_lock` under the cooperative scheduler.  Taking it is a scheduling point; a thread that
+    finds it held by another thread parks.  A *timed* acquire that is granted its next step while the lock is still
+    held has run out of time and returns False (the holder may keep a lock for as long as it likes: `submit_tasks`
+    holds this one for a whole submission)."""
+    def __init__(self):
+        self.owner, self.depth = None, 0
+    def acquire(self, blocking=True, timeout=-1):
+        import coop
+        me = getattr(coop._local, 'worker', None)
+        if self.owner is me and me is not None:
+            self.depth += 1; return True
+        coop.point('lock')
+        while self.owner is not None:
+            if not blocking: return False
+            coop.point('lock-wait')
+            if self.owner is not None and timeout is not None and timeout >= 0:
+                return False
+        self.owner, self.depth = me, 1
+        return True
+    def release(self):
+        self.depth -= 1
+        if self.depth == 0: self.owner = None
+    def __enter__(self): self.acquire(); return self
+    def __exit__(self, *a): self.release()
+
+
+def run_contended(rp, choices, final_state='FAILED'):
+    """the final state of a pilot arrives (real TaskManager._pilot_state_cb on the pilot update thread) while an
+    application thread is inside a submission and holds the task manager's tasks lock for as long as the schedule
+    lets it.  choices: which thread takes its next step.  Returns the states of the two tasks of the dead pilot and
+    of a task of another pilot once both threads are through."""
+    import coop
+    tm = stubs.make_tmgr(rp)
+    tm._tasks_lock = TimedCoopRLock()
+    ts = [stubs.make_task(rp, tm, 'task.000000', 'AGENT_EXECUTING', pilot='pilot.0000'),
+          stubs.make_task(rp, tm, 'task.000001', 'TMGR_STAGING_INPUT_PENDING', pilot='pilot.0000'),
+          stubs.make_task(rp, tm, 'task.000002', 'AGENT_EXECUTING', pilot='pilot.0001')]
+    ctl = coop.Controller()
+    errs = []
+    try:
+        def submit():
+            # TaskManager.submit_tasks: `with self._tasks_lock:` around the whole loop that registers the new tasks
+            with tm._tasks_lock:
+                for _ in range(3): coop.point('submitting')
+        def final():
+            try: tm._pilot_state_cb(PilotStub(0, final_state))
+            except Exception as e: errs.append(type(e).__name__)
+        ctl.spawn('submit', submit)
+        ctl.spawn('final', final)
+        for c in list(choices) + ['submit'] * 8 + ['final'] * 8:
+            if all(w.done for w in ctl.workers.values()): break
+            if not ctl.workers[c].done: ctl.grant(c)
+    finally:
+        ctl.close()
+    return [t.state for t in ts], errs
+
+
+def contended_part(ctx, rp):
+    import itertools
+    n = 0
+    for k in range(0, 6):
+        for choices in itertools.product(['submit', 'final'], repeat=k):
+            for fs in (['FAILED'] if k > 3 else ['FAILED', 'DONE', 'CANCELED']):
+                states, errs = run_contended(rp, choices, fs)
+                n += 1
+                ctx.case({'contended': list(choices), 'final': fs}, nontrivial='final' in choices and 'submit' in choices)
+                if states[:2] != ['FAILED', 'FAILED'] or states[2] != 'AGENT_EXECUTING' or errs:
+                    ctx.fail('contended:dead-pilot-keeps-its-tasks',
+                             'pilot.0000 ended %s while a submission held the tasks lock (schedule %s): its tasks are %s, the '
+                             'bystander is %s %s' % (fs, list(choices), states[:2], states[2], errs),
+                             {'contended': {'choices': list(choices), 'final': fs}}, observed=states)
+    ctx.obligation('a pilot ends while a submission holds the tasks lock: all schedules of the two threads up to 5 steps (%d runs)' % n,
+                   'tie', True, '')
+
+
 def added_part(ctx, rp):
     rng = ctx.rng
     n = 0
@@ -254,6 +330,7 @@ def run(ctx):
     rp   = rpload.load()
     chain_part(ctx, rp)
     added_part(ctx, rp)
+    contended_part(ctx, rp)
     tsts = [s for s in rp.states._task_state_values if s is not None]
     psts = [s for s in rp.states._pilot_state_values if s is not None]
     cases = list(CORPUS)
@@ -335,6 +412,10 @@ def replay(ctx, data):
                 if j in dead and (ts != 'FAILED' or 'pilot.%04d' % j not in str(det)): ok = False
                 if j not in dead and ts != ('TMGR_STAGING_INPUT_PENDING' if j in start else 'AGENT_EXECUTING'): ok = False
         return ok
+    if 'contended' in inp:
+        states, errs = run_contended(rp, inp['contended']['choices'], inp['contended']['final'])
+        print('observed:', states, errs)
+        return states[:2] == ['FAILED', 'FAILED'] and states[2] == 'AGENT_EXECUTING' and not errs
     if 'chain' in inp:
         c = inp['chain']
         called, tstate = run_chain(rp, [tuple(x) for x in c['before']], [tuple(x) for x in c['after']], [tuple(x) for x in c['pmgr']])
